@@ -28,6 +28,13 @@ pub fn cube_checks(b: &Bdd, h: Term, tt: TT, n: usize, out: &mut Vec<(String, St
                     continue;
                 }
             };
+            // the two list arguments are carried into every cube in front of what the walk adds
+            if let Ok(with_prefix) = guard(|| b.interpretations(h, goal, Var(gv), &[Var(n + 3)], &[Var(n + 4), Var(n + 5)])) {
+                let want: Vec<(Vec<Var>, Vec<Var>)> = cubes.iter().map(|(ng, ps)| ([vec![Var(n + 3)], ng.clone()].concat(), [vec![Var(n + 4), Var(n + 5)], ps.clone()].concat())).collect();
+                if with_prefix != want {
+                    out.push(("cubes:prefix-arguments".into(), format!("interpretations({},{},{}) with the list arguments [Var({})] / [Var({}),Var({})] is not the plain answer with these lists in front: {:?} vs {:?}", h, goal, gv, n + 3, n + 4, n + 5, with_prefix, cubes)));
+                }
+            }
             // as assignment sets over n variables (+ the goal variable if it is outside)
             let nn = n.max(gv + 1);
             let mut sets: Vec<u64> = vec![];
